@@ -618,6 +618,64 @@ def _kron_rootinv_noargs(repo):
     raise Untranslatable("KroneckerProductLinearOperator.root_inv_decomposition: super() call with arguments the model does not transcribe")
 
 
+def cache_sites(repo):
+    """two finite tables read from linear_operator/operators/*.py (ast):
+       cached_sites   (class, method, cache name or "", ignore_args, number of parameters besides self) for every @cached
+       handover_sites (module, function, target expression, cache name) for every add_to_cache(<target>, "<name>", ...)
+    They are emitted as coq/C12/gen/CacheSites.v; Property.v states over them that ignore_args is used on a method with
+    arguments only where its soundness is proved, that a cache name belongs to one method name, and that the hand-over
+    sites (add_to_cache onto ANOTHER object) are exactly the ones the model transcribes."""
+    d = os.path.join(repo, "linear_operator", "operators")
+    cached, hand = [], []
+    for fn in sorted(os.listdir(d)):
+        if not fn.endswith(".py"):
+            continue
+        try:
+            tree = ast.parse(open(os.path.join(d, fn)).read())
+        except SyntaxError as ex:
+            raise Untranslatable("syntax error in %s: %s" % (fn, ex))
+        mod = fn[:-3]
+        for cls in [n for n in ast.walk(tree) if isinstance(n, ast.ClassDef)]:
+            for f in [n for n in cls.body if isinstance(n, ast.FunctionDef)]:
+                for dec in f.decorator_list:
+                    name, ign, is_c = "", False, False
+                    if isinstance(dec, ast.Name) and dec.id == "cached":
+                        is_c = True
+                    elif isinstance(dec, ast.Call) and isinstance(dec.func, ast.Name) and dec.func.id == "cached":
+                        is_c = True
+                        for kw in dec.keywords:
+                            if kw.arg == "name":
+                                if not (isinstance(kw.value, ast.Constant) and isinstance(kw.value.value, str)):
+                                    raise Untranslatable("%s.%s: @cached name is not a string literal" % (cls.name, f.name))
+                                name = kw.value.value
+                            elif kw.arg == "ignore_args":
+                                if not isinstance(kw.value, ast.Constant):
+                                    raise Untranslatable("%s.%s: @cached ignore_args is not a literal" % (cls.name, f.name))
+                                ign = bool(kw.value.value)
+                            else:
+                                raise Untranslatable("%s.%s: @cached with keyword %s" % (cls.name, f.name, kw.arg))
+                        if dec.args:
+                            raise Untranslatable("%s.%s: @cached with positional arguments" % (cls.name, f.name))
+                    if is_c:
+                        a = f.args
+                        npar = len(a.args) - 1 + len(a.kwonlyargs) + (1 if a.vararg else 0) + (1 if a.kwarg else 0)
+                        cached.append((cls.name, f.name, name, ign, npar))
+        for f in [n for n in ast.walk(tree) if isinstance(n, ast.FunctionDef)]:
+            for c in ast.walk(f):
+                if isinstance(c, ast.Call) and isinstance(c.func, ast.Name) and c.func.id == "add_to_cache" and len(c.args) >= 2:
+                    tgt = c.args[0].id if isinstance(c.args[0], ast.Name) else ast.dump(c.args[0])[:40]
+                    nm = c.args[1].value if isinstance(c.args[1], ast.Constant) else "?"
+                    hand.append((mod, f.name, tgt, str(nm)))
+    q = lambda x: '"%s"' % x.replace('"', '""')                                                                    # noqa: E731
+    code = ("(* GENERATED by harness/c12_memo_tr.py from linear_operator/operators/*.py - do not edit *)\n"
+            "From Coq Require Import List String.\nImport ListNotations.\nOpen Scope string_scope.\n"
+            "Definition cached_sites : list (string * string * string * bool * nat) := [\n  %s].\n"
+            "Definition handover_sites : list (string * string * string * string) := [\n  %s].\n"
+            % (";\n  ".join("(%s, %s, %s, %s, %d)" % (q(a_), q(b_), q(c_), "true" if d_ else "false", e_) for (a_, b_, c_, d_, e_) in cached),
+               ";\n  ".join("(%s, %s, %s, %s)" % (q(a_), q(b_), q(c_), q(d_)) for (a_, b_, c_, d_) in hand)))
+    return code, {"cached": cached, "handover": hand}
+
+
 if __name__ == "__main__":
     import sys
     print(translate(sys.argv[1] if len(sys.argv) > 1 else "/repo")[0])
